@@ -262,7 +262,10 @@ class SpecGen:
             o["ignore_na"] = False
         if self.feat["raise_warning"] and r.random() < 0.15:
             o["raise_warning"] = True
-        if r.random() < 0.15 * getattr(self, "p_boost", 1.0):
+        p_nfc = 0.15 * getattr(self, "p_boost", 1.0)
+        if getattr(self, "p_boost", 1.0) > 1.0 and self.feat.get("drop_invalid_rows"):
+            p_nfc = 0.5         # dropping invalid rows consults the reported failure cases: the two options interact
+        if r.random() < p_nfc:
             o["n_failure_cases"] = r.choice([1, 2, 0])      # 0: "report no failure cases" (an error with an empty table)
         return o
 
